@@ -640,6 +640,7 @@ func TestC14Matrix(t *testing.T) {
 		{"bool", func() *lib.Node { return lib.Not(lib.Bin("^=", lib.Key(), lib.Str("a"))) }},
 		{"list", func() *lib.Node { return lib.Call("split", lib.Value(), lib.Str(",")) }},
 		{"list", func() *lib.Node { return lib.Call("list", lib.Int(1), lib.Int(2)) }},
+		{"json", func() *lib.Node { return lib.Call("json", lib.Str(`{"a": 1}`)) }},
 	}
 	binops := []string{"=", "!=", "<", "<=", ">", ">=", "^=", "~=", "+", "-", "*", "/", "&", "|", "and", "or"}
 	idx := 0
@@ -677,7 +678,7 @@ func TestC14Matrix(t *testing.T) {
 				emit(lib.InList(l.mk(), r.mk()), l.ty+" in list")
 			}
 			for _, h := range ops {
-				if h.ty == r.ty || (h.ty != "list" && r.ty != "list" && (idx%3 == 0)) {
+				if h.ty == r.ty || (h.ty != "list" && r.ty != "list" && h.ty != "json" && r.ty != "json" && (idx%3 == 0)) {
 					emit(lib.Between(l.mk(), r.mk(), h.mk()), l.ty+" between "+r.ty+" and "+h.ty)
 				}
 			}
